@@ -30,6 +30,8 @@ CLAIMS = {
  "C14": ("6.C14", "Random programs over append/calculate/purge/recalculate/calculate_index(+/-i)/add/remove are validated step by step: purge leaves exactly the state the spec's MgrPurge of the transitively owned names gives, recalculate and calculate_index reproduce the stored readings bit for bit, and the final calculate() equals a batch twin of the final registry."),
  "C19": ("6.C19", "Read-only calls (str, repr, name, settings, has_reading, reading, prev_reading, as_list, reading_count, reading_period, candles_sum and the Hexital equivalents) interleaved with appends given as Candle/dict/list: TLC checks that nothing in the projected state or the object's attributes changed, that the caller's containers are unchanged, and that every timeframe received the same candle."),
  "C20": ("6.C20", "Every accessor path (Indicator.reading/prev_reading/as_list/read_candle/has_reading/reading_count, Hexital.reading/prev_reading/reading_as_list/has_reading; plain and dotted names; positive and negative indices) is compared by TLC with the spec's Reading function on the observed candles, on states holding legitimate 0/False readings."),
+ "C16": ("6.C16", "Every movement and pattern function is called on generated candle lists (missing readings, late/early series, scaled and shifted copies) at every index in three ways -- positive index, negative index, default position on the truncated list -- and TLC compares each result with the specification's causal, index-consistent definition; the Amorph-wrapped functions are validated live and against a batch twin."),
+ "C17": ("6.C17", "The docstring semantics (strict comparisons, inclusive extremes, most recent extreme on ties, cross = now above and before below, missing readings never true), the candle geometry and the four patterns are TLA+ operators (Analysis.tla); TLC evaluates them on the observed lists, including constructed witnesses and single-clause counter-witnesses with 2x margins and scaled/shifted copies; exact ties are accepted either way."),
  "C18": ("6.C18", "The same scenarios are recorded in subprocesses under 7 non-UTC zones (half-hour, 45-minute, DST) and validated against the single zone-free specification (exact equality of every collapsed candle)."),
 }
 
